@@ -40,7 +40,14 @@ import (
 const (
 	keyCongruent = "equivocation:readings-congruent-mod-2^32"
 	keyZeroAlias = "equivocation:reading-multiple-of-2^32-stored-as-empty"
+	keyResend    = "equivocation:resend-of-reading-outside-int32-range"
 )
+
+// sext32 is what a sync re-send carries for a stored reading: the 32-bit
+// history cell, sign-extended.
+func sext32(v uint64) uint64 { return uint64(int64(int32(uint32(v)))) }
+
+func outsideInt32(v uint64) bool { return sext32(v) != v }
 
 func main() {
 	run.Main(run.Spec{
@@ -56,7 +63,7 @@ func main() {
 			"Non-trivial = a version in which some slot has two usable rows with different values or a row whose value differs from the slot's first reading; a store operation on an occupied cell or outside the range; distinct by content.",
 		Assumptions: []string{
 			"wire scenarios: the client's background sync never succeeds (its only server answers no TCP request), so every datagram at the sink comes from the report loop",
-			"sync scenarios: readings are kept inside the signed 32-bit range, the only range in which a re-send (sign-extended 32-bit history cell) can equal the original; delivery/recovery of lost reports is C08's subject, here only identity and first-reading value of what is emitted",
+			"sync, fault and emptyhist scenarios: about one reading in five lies outside the signed 32-bit range ([2^31,2^32), >= 2^32 or <= -2^31-1 with a low word of 2 or more); for such a first reading v a sync re-send carries the sign-extended history cell instead of v: reported under the known key " + keyResend + " only when the slot's datagrams are exactly v and/or that one value, every other anomaly on the slot keeps its own key; delivery/recovery of lost reports is C08's subject, here only identity and first-reading value of what is emitted",
 			"datagrams are judged only if they were emitted: the client sends a slot only while it is newer than the newest slot it had seen, so rewritten old rows are observed through history.dat, not on the wire",
 			"a row whose value is exactly 0 is not counted as a reading (the property itself calls value 0 indistinguishable from empty)",
 			"rows behind a CSV-level error may or may not have been read (C16 allows both): their values are admissible, not required",
@@ -67,7 +74,7 @@ func main() {
 		Post: func(c *ev.Check, outs []*run.Outcome) {
 			for k, min := range map[string]int64{
 				"wire.datagrams": 100, "wire.slots_with_acted_datagram": 50, "wire.restarts": 5, "wire.dup_new_slot_one_report": 3, "wire.versions_with_conflict": 10,
-				"wire.probe_congruent": 1, "wire.probe_row_patterns": 1, "store.save_accepted_below_2^21": 100, "store.round_distance_ops": 10, "history.checks": 50, "history.cells_checked": 100, "history.conflicting_rewrite_kept_first": 3,
+				"wire.probe_congruent": 1, "wire.probe_row_patterns": 1, "wire.wide_slots_resent": 5, "store.save_accepted_below_2^21": 100, "store.round_distance_ops": 10, "history.checks": 50, "history.cells_checked": 100, "history.conflicting_rewrite_kept_first": 3,
 				"store.save_accepted": 100, "store.save_refused_occupied": 100, "store.save_refused_before_origin": 10, "store.save_noop_equal": 20, "store.zero_on_empty": 10,
 				"store.load": 100, "store.far_saves": 10, "store.wrap_zone_ops": 10, "store.full_checks": 5, "store.restarts": 1, "store.origin_minus_one": 1,
 				"conc.loads_on_stored": 10000, "conc.goroutines": 8, "conc.saves_accepted": 100, "conc.saves_refused_occupied": 1000,
@@ -183,7 +190,7 @@ type scen struct {
 	lines    []line
 	header   bool
 	nextSlot int64
-	small    bool // readings stay inside the signed 32-bit range (sync scenarios)
+	small    bool // sync-enabled scenario: no 1e10+ class; one reading in five outside the signed 32-bit range (wideVal)
 	faulty   bool // a read or write fault is currently injected into the client's history descriptor
 	versions []string
 	slots    map[uint32]*slotInfo
@@ -209,8 +216,27 @@ func (s *scen) content() string {
 }
 
 // cval: readings inside the value-rule domain.
+// wideVal: readings whose scaled value does not fit the signed 32-bit range
+// (the low word is neither 0 nor 1, so the history holds something a sync re-sends).
+func (s *scen) wideVal() string {
+	rng := s.rng
+	low := 2 + rng.Int63n(1<<32-2)
+	switch rng.Intn(4) {
+	case 0:
+		return fmt.Sprint(int64(1)<<31 + rng.Int63n(1<<31)) // [2^31, 2^32)
+	case 1:
+		return fmt.Sprint(int64(1+rng.Intn(200))<<32 + low) // >= 2^32, low word set
+	case 2:
+		return fmt.Sprint(-(int64(1)<<31 + 1 + rng.Int63n(1<<31-2))) // (-2^32, -2^31-1]
+	}
+	return fmt.Sprint(-(int64(1+rng.Intn(200))<<32 + low)) // <= -2^32, low word set
+}
+
 func (s *scen) cval() string {
 	rng := s.rng
+	if s.small && rng.Intn(5) == 0 {
+		return s.wideVal()
+	}
 	switch k := rng.Intn(100); {
 	case k < 50:
 		return fmt.Sprintf("%.3f", 24+rng.Float64()*1e6)
@@ -738,6 +764,17 @@ func (s *scen) judge(pkts [][]byte, key refenc.Key, id uint32) {
 		slots = append(slots, sl)
 	}
 	sort.Slice(slots, func(i, j int) bool { return slots[i] < slots[j] })
+	var wideSlots []uint32
+	defer func() {
+		// one violation per scenario for the known class (a witness and the number of slots)
+		if len(wideSlots) > 0 {
+			sl := wideSlots[0]
+			rp := s.replay()
+			rp["slots"] = wideSlots
+			v := s.slots[sl].first
+			r.Violationf(keyResend, rp, "%d slot(s) whose first reading lies outside the signed 32-bit range were re-sent by a sync round with the sign-extended 32-bit history cell: e.g. slot %d, first reading %d (0x%x), datagram powers %v, re-send value %d", len(wideSlots), sl, int64(v), v, keys(groups[sl].powers), int64(sext32(v)))
+		}
+	}()
 	for _, sl := range slots {
 		g := groups[sl]
 		r.Eval(1)
@@ -796,7 +833,16 @@ func (s *scen) judge(pkts [][]byte, key refenc.Key, id uint32) {
 			}
 		}
 		desc := fmt.Sprintf("slot %d: %d datagrams, %d distinct, powers %v; first reading(s) %v; all row values %v", sl, g.n, len(g.bytes), keys(g.powers), keys(info.adm), keys(info.all))
+		wideOnly := info.fixed && outsideInt32(info.first) && uint32(info.first) >= 2
+		for p := range g.powers {
+			if p != info.first && p != sext32(info.first) {
+				wideOnly = false
+			}
+		}
 		switch {
+		case wideOnly:
+			wideSlots = append(wideSlots, sl)
+			r.Count("wire.wide_slots_resent", 1)
 		case !fromRow:
 			r.Violationf("report-value-not-from-any-row", rp, "%s", desc)
 		case congruent && admLow && (len(g.powers) > 1 || wrong):
